@@ -326,8 +326,14 @@ def run(ctx):
                 for (t, r), p in zip(pt, pl):
                     n, polls, fam = t[3], int(r["polls"]), insts[t[0]]["family"]
                     # stop_effective / stop_not_seen, per trial: seen at poll n <=> more than n polls happened
-                    if r["r1"] == "unknown" and polls not in (n + 1, n + 2):
-                        ctx.tie_broken("stop-prediction-polls", "%s: request visible at poll %d, unknown after %d polls; the model allows %d or %d" % (fam, n, polls, n + 1, n + 2))
+                    # Exact poll count until return: n+1 (seen by solve_'s loop head) or n+2 (seen in search, then solve_'s head).
+                    # With the preprocessor on, the model merges the simplifier's nested poll sites (per variable, inside
+                    # backwardSubsumptionCheck, per round) into one; a request seen at an inner site is seen again at the
+                    # enclosing ones before `cleanup`, so there only "seen <=> more than n polls" is compared.
+                    simp = ":incremental false" in insts[t[0]]["text"]
+                    if r["r1"] == "unknown" and (polls <= n or (not simp and polls > n + 2)):
+                        ctx.tie_broken("stop-prediction-polls", "%s: request visible at poll %d, unknown after %d polls; the model allows %s" % (
+                            fam, n, polls, "more than %d" % n if simp else "%d or %d" % (n + 1, n + 2)))
                     if r["r1"] in ("sat", "unsat") and polls > n:
                         ctx.tie_broken("stop-seen-but-definitive", "%s: the request was raised at poll %d (%d polls done) and check() still answered %s; "
                                        "stop_effective says unknown" % (fam, n, polls, r["r1"]), dict(instance=insts[t[0]]["text"], poll=n))
